@@ -3,8 +3,10 @@
 * packet_parser.rs x3 (tcp/http/tls) identical modulo crate names; the unified crate's copy identical
   after mapping its slice-returning arms (`Ipv4Packet::new(x).is_some()` / `IpPacket::Ipv4(x)`) back.
 * raw_filter.rs x3 identical modulo crate names.
-* packet_hash.rs x3: the shared "Ethernet header present" test is textually the same in all three, and the
-  byte offsets / constants the model mirrors are regenerated into lean/Huginn/Gen/Wire.lean.
+* packet_hash.rs x3 (after fixes/C18-hashers-locate-ip-like-parser.patch): `locate_ip` is textually the same
+  in all three and has exactly the shape Model/Wire.lean `locEth / locRaw / locNull / locateIp` mirrors (three
+  guarded `match`es with early returns, then `None`); every literal in it, the way each hasher consumes its
+  result, and the byte offsets / constants of the flow hashers are regenerated into lean/Huginn/Gen/Wire.lean.
 """
 import os, re
 
@@ -66,15 +68,16 @@ def run(repo, gen_dir):
     ok = all(rf.values()) and len({norm(v) for v in rf.values()}) == 1
     items.append({"name": "raw_filter.rs x3 identical", "props": ["C15"], "ok": bool(ok),
                   "detail": "" if ok else "the three raw_filter.rs copies differ (or one is missing)"})
-    # --- packet_hash.rs: shared Ethernet test
+    # --- packet_hash.rs: shared locate_ip
     ph = {c: rd(repo, f"huginn-net-{c}/src/packet_hash.rs") for c in crates}
-    tests = set()
+    bodies = set()
     for c in crates:
-        m = re.search(r"let ip_start: usize = (if .*?\{\s*14\s*\} else \{\s*0[^}]*\});", ph[c] or "", re.S)
-        tests.add(strip_comments(m.group(1)) if m else f"missing-{c}")
-    ok = len(tests) == 1 and not any(t.startswith("missing") for t in tests)
-    items.append({"name": "packet_hash.rs x3 share the Ethernet test", "props": ["C18"], "ok": ok,
-                  "detail": "" if ok else f"ip_start computation differs between the hashers: {sorted(tests)[:3]}"})
+        m = re.search(r"\nfn locate_ip\(.*?\n\}\n", ph[c] or "", re.S)
+        bodies.add(strip_comments(m.group(0)) if m else f"missing-{c}")
+    ok = len(bodies) == 1 and not any(t.startswith("missing") for t in bodies)
+    items.append({"name": "packet_hash.rs x3 share locate_ip", "props": ["C18", "C01"], "ok": ok,
+                  "detail": "" if ok else f"locate_ip differs between the hashers or is missing: {sorted(bodies)[:3]}"})
+    locate_src = sorted(bodies)[0] if ok else ""
 
     # --- constants the model mirrors
     p = pp["tcp"] or ""
@@ -100,16 +103,41 @@ def run(repo, gen_dir):
     m = const(r"fn extract_ipv6_info.*?packet\.len\(\) < (\d+).*?packet\[(\d+)\] != (\d+).*?packet\.len\(\) < (\d+)", r,
               "filter: ipv6 min 40, next header at 6 = 6, 44", items, ["C15"])
     vals["rfV6Min"], vals["rfV6NhOff"], vals["rfV6Proto"], vals["rfV6Need"] = m.groups() if m else (0, 0, 0, 0)
-    h = ph["tcp"] or ""
-    m = const(r"packet\.len\(\) > (\d+)\s*&& \(\(packet\[(\d+)\] == (0x[0-9a-fA-F]+) && packet\[(\d+)\] == (0x[0-9a-fA-F]+)\)\s*\|\| \(packet\[\d+\] == (0x[0-9a-fA-F]+) && packet\[\d+\] == (0x[0-9a-fA-F]+)\)\)", h,
-              "hash: ethernet test len > 14, bytes 12/13 in {0800, 86DD}", items, ["C18"])
-    vals["phEthGt"] = m.group(1) if m else 0
-    vals["phEthType4"] = (int(m.group(3), 16) * 256 + int(m.group(5), 16)) if m else 0
-    vals["phEthType6"] = (int(m.group(6), 16) * 256 + int(m.group(7), 16)) if m else 0
-    m = const(r"ip_start\.saturating_add\((\d+)\)", h, "hash(tcp): min length ip_start + 20", items, ["C18"])
-    vals["phTcpMin"] = m.group(1) if m else 0
+    HEX = r"(0x[0-9a-fA-F]+)"
+    RET = r"return Some\(\((\d+), (\d+)\)\)"
+    LOCATE = (
+        r"fn locate_ip\(packet: &\[u8\]\) -> Option<\(usize, u8\)> \{ "
+        r"if packet\.len\(\) >= (\d+) \{ match u16::from_be_bytes\(\[packet\[(\d+)\], packet\[(\d+)\]\]\) \{ "
+        + HEX + r" if packet\.len\(\) >= (\d+) => " + RET + r", "
+        + HEX + r" if packet\.len\(\) >= (\d+) => " + RET + r", _ => \{\} \} \} "
+        r"if packet\.len\(\) >= (\d+) \{ match packet\[(\d+)\] >> (\d+) \{ "
+        r"(\d+) => " + RET + r", (\d+) if packet\.len\(\) >= (\d+) => " + RET + r", _ => \{\} \} \} "
+        r"if packet\.len\(\) >= (\d+) && packet\[0\] == " + HEX + r" && packet\[1\] == " + HEX + r" \{ "
+        r"match packet\[(\d+)\] >> (\d+) \{ "
+        r"(\d+) => " + RET + r", (\d+) if packet\.len\(\) >= (\d+) => " + RET + r", _ => \{\} \} \} "
+        r"None \}$"
+    )
+    names = ["liEthMin", "liEthB0", "liEthB1",
+             "liEthType4", "liEth4Need", "liEth4Off", "liEth4Ver",
+             "liEthType6", "liEth6Need", "liEth6Off", "liEth6Ver",
+             "liRawMin", "liRawIdx", "liRawShift",
+             "liRaw4Nib", "liRaw4Off", "liRaw4Ver", "liRaw6Nib", "liRaw6Need", "liRaw6Off", "liRaw6Ver",
+             "liNullMin", "liNull0", "liNull1", "liNullIdx", "liNullShift",
+             "liNull4Nib", "liNull4Off", "liNull4Ver", "liNull6Nib", "liNull6Need", "liNull6Off", "liNull6Ver"]
+    m = const(LOCATE, locate_src, "hash: locate_ip = Ethernet by ethertype / raw by nibble / loopback 1e 00, shape and literals",
+              items, ["C18", "C01"])
+    for i, nm in enumerate(names):
+        vals[nm] = m.group(i + 1) if m else 0
+    # how each hasher consumes the result (after comment stripping / whitespace normalisation)
+    use = {
+        "tcp": r"pub fn hash_source_ip\(packet: &\[u8\]\) -> usize \{ let \(ip_start, version\) = match locate_ip\(packet\) \{ Some\(located\) => located, None => return fallback_hash\(packet\), \}; let ip_packet = &packet\[ip_start\.\.\]; match version \{ 4 => \{ if ip_packet\.len\(\) >= (\d+) \{ let src_ip = &ip_packet\[(\d+)\.\.(\d+)\]; hash_bytes\(src_ip\) \} else \{ fallback_hash\(packet\) \} \} 6 => \{ if ip_packet\.len\(\) >= (\d+) \{ let src_ip = &ip_packet\[(\d+)\.\.(\d+)\]; hash_bytes\(src_ip\) \} else \{ fallback_hash\(packet\) \} \} _ => fallback_hash\(packet\), \} \}",
+        "http": r"pub fn hash_flow\(packet: &\[u8\], num_workers: usize\) -> usize \{ let \(ip_start, version\) = match locate_ip\(packet\) \{ Some\(located\) => located, None => return fallback_hash\(packet, num_workers\), \}; let min_length = ip_start\.saturating_add\((\d+)\); if packet\.len\(\) < min_length \{ return fallback_hash\(packet, num_workers\); \} let ip_packet = &packet\[ip_start\.\.\]; match version \{ 4 => hash_ipv4_flow\(ip_packet, num_workers\), 6 => hash_ipv6_flow\(ip_packet, num_workers\), _ => fallback_hash\(packet, num_workers\), \} \}",
+        "tls": r"pub fn hash_flow\(packet: &\[u8\], num_workers: usize\) -> Option<usize> \{ let \(ip_start, version\) = locate_ip\(packet\)\?; let min_length = ip_start\.saturating_add\((\d+)\); if packet\.len\(\) < min_length \{ return None; \} let ip_packet = &packet\[ip_start\.\.\]; match version \{ 4 => hash_ipv4_flow\(ip_packet, num_workers\), 6 => hash_ipv6_flow\(ip_packet, num_workers\), _ => None, \} \}",
+    }
+    m = const(use["tcp"], strip_comments(ph["tcp"] or ""), "hash(tcp): hash_source_ip = locate_ip, then source address bytes by version", items, ["C18", "C01"])
+    (vals["phTcpV4Need"], vals["phTcpV4From"], vals["phTcpV4To"], vals["phTcpV6Need"], vals["phTcpV6From"], vals["phTcpV6To"]) = m.groups() if m else (0, 0, 0, 0, 0, 0)
     for c in ("http", "tls"):
-        m = const(r"ip_start\.saturating_add\((\d+)\)", ph[c] or "", f"hash({c}): min length ip_start + 40", items, ["C18"])
+        m = const(use[c], strip_comments(ph[c] or ""), f"hash({c}): hash_flow = locate_ip, min length ip_start + 40, flow hash by version", items, ["C18", "C01"])
         vals[f"ph{c.capitalize()}Min"] = m.group(1) if m else 0
     for c in ("http", "tls"):
         m = const(r"let ip_header_len = ihl\.saturating_mul\((\d+)\)\.max\((\d+)\);", ph[c] or "", f"hash({c}): ports at max(ihl*4, 20)", items, ["C18"])
